@@ -426,5 +426,11 @@ def r6_iteration_local_scope(chk: Check) -> None:
         chk.undecided("C08.R6", "<discovery>", f"sites={n_sites}", "fewer per-iteration scope variables than confirmed by hand (3)")
 
 
+def rfwd_forwarding(chk: Check) -> None:
+    from . import shared
+
+    shared.forwarding_rule(chk, "C08.FWD", ('specs/openapi/_cache.py:', 'specs/openapi/schemas.py:BaseOpenAPISchema.make_operation', 'specs/openapi/schemas.py:BaseOpenAPISchema._raise_invalid_schema', 'core/errors.py:'), "operation construction / error location", 4)
+
+
 def rules(tier: str) -> list:  # type: ignore[type-arg]
-    return [r1_scope_pairs, r2_merge_order, r3_constructors, r4_no_drop, r5_yaml, r6_iteration_local_scope]
+    return [r1_scope_pairs, r2_merge_order, r3_constructors, r4_no_drop, r5_yaml, r6_iteration_local_scope, rfwd_forwarding]
